@@ -3,3 +3,9 @@ chk("C03", "exploration",
     "Trusts yaml.v3/encoding/json used by the harness to render profiles and parse reports; atom minCount:1 is checked separately (C01).",
     "bounded exhaustive enumeration (all level assignments x configurations) against a reference oracle, on the real implementation",
     "DESIGN.md §3 C03")
+
+chk("C01", "exploration",
+    "Bounded-exhaustive enumeration of the declarative formula language: every propositional formula up to a connective-count bound on all truth assignments (one truth-table graph evaluation decides all 8, with non-target and doubly-typed decoy nodes), every quantifier (nested/atLeast/atMost) over every small inner formula in 10 connective contexts on every child multiset, quantifier chains to depth 2-3; each compared per node with a classical reference evaluator.",
+    "Trusts the harness's own YAML rendering (parsed back by the implementation) and json-gold flattening of flat input; atoms other than minCount are covered only by the atom catalogue family.",
+    "bounded exhaustive enumeration of formulas x truth assignments against a reference evaluator, on the real implementation",
+    "DESIGN.md §3 C01")
